@@ -552,3 +552,18 @@ pub fn k_nd() -> Class {
     let binary = vec![u2(|a, c| Some(Then(a, c))), u2(|a, c| Some(Or(a, c)))];
     Class { name: "Knd", leaves, unary, binary, ternary: vec![] }
 }
+
+/// Focused emission/backtracking class (C05): few node kinds, so that deep trees are affordable.
+/// Every backtracking construct, zero-width and consuming emitters, recovery.
+pub fn k_emit() -> Class {
+    let leaves = vec![Just('a'), Just('b'), Empty, Any];
+    let unary = vec![
+        u1(|a| Some(Validate(a, 1))),
+        u1(|a| Some(OrNot(a))),
+        u1(|a| Some(Not(a))),
+        u1(|a| Some(Rewind(a))),
+        u1(|a| if nn(&a) { Some(Rep(a, Bounds::STAR, Sink::Vec)) } else { None }),
+    ];
+    let binary = vec![u2(|a, c| Some(Then(a, c))), u2(|a, c| Some(Or(a, c))), u2(|a, c| Some(AndIs(a, c))), u2(|a, f| Some(Recover(a, f)))];
+    Class { name: "Kemit", leaves, unary, binary, ternary: vec![] }
+}
